@@ -169,6 +169,8 @@ structure World where
   meSubs : List SubRow := []                -- the users' subscriptions to their own `me` topic (no topic row goes with them)
   fndSubs : List SubRow := []               -- … and to their own `fnd` topic; both are made with the account (store.Users.Create)
   gone : List Uid := []                     -- the accounts which were deleted ({del what=user}): nobody can log in as one of them again
+  orphans : List TopicRow := []             -- topics deleted with their owner's account whose channel readers' subscriptions (rows under the
+                                            -- `chn` name) were left behind by UserDelete: only `csubs` of such a row means anything
   hubJoin : List HeldReq := []              -- hub.join: {sub} requests the hub has not looked at yet
   hubUnreg : List HeldReq := []             -- hub.unreg: topics to shut down (the owner's {del topic}, the idle timer)
   exiting : List Topic := []                -- topics the hub has shut down which have not processed the news yet (Topic.exit)
@@ -243,6 +245,15 @@ def World.setLive (w : World) (t : Topic) : World :=
 def World.delLive (w : World) (t : TName) : World := { w with live := w.live.filter (·.name ≠ t) }
 def World.setSess (w : World) (s : Sess) : World :=
   { w with sess := w.sess.map (fun x => if x.sid = s.sid then s else x) }
+
+/-- the row which holds the subscriptions stored under the `chn` spelling of a name: the topic's row, or what is left of it -/
+def World.crow? (w : World) (t : TName) : Option TopicRow :=
+  match w.row? t with
+  | some r => some r
+  | none => w.orphans.find? (·.name = t)
+def World.setCrow (w : World) (r : TopicRow) : World :=
+  if w.store.any (·.name = r.name) then w.setRow r
+  else { w with orphans := w.orphans.map (fun x => if x.name = r.name then r else x) }
 
 def TopicRow.sub? (r : TopicRow) (u : Uid) : Option SubRow := r.subs.find? (·.user = u)
 def TopicRow.setSub (r : TopicRow) (s : SubRow) : TopicRow :=
